@@ -463,7 +463,8 @@ def alts(dom, default, opts=None, name="", thorough=False):
         add("x", "invalid", "string for a list"); add(3, "invalid", "number for a list")
     elif b == "BListStr":
         if opts:
-            add(list(reversed(opts)), "valid"); add(list(opts) + ["extra"], "valid")
+            add(list(reversed(opts)), "valid")
+            add(list(opts) + ["extra"], "invalid", "an option name the split components cannot represent")
             add([" " + opts[0].upper()] + [o.title() + " " for o in opts[1:]], "valid")
             add(list(opts[:-1]), "invalid", "a default entry is no longer an option")
             add(["hot", "cold"], "invalid", "the default entries are not options")
@@ -574,7 +575,7 @@ def gen_single(ap, run):
             first_change = True
             must = run.rng.randrange(len(al))
             for ai, (v, tag, why) in enumerate(al):
-                if not thorough and fam not in FULL_IN_QUICK and ai != must and run.rng.random() > 0.34 \
+                if not thorough and fam not in FULL_IN_QUICK and ai != must and run.rng.random() > 0.28 \
                         and not (first_change and tag in ("valid", "coerce", "cross") and not peq(canon(v), canon(default))):
                     continue
                 for dm in dms:
@@ -584,7 +585,7 @@ def gen_single(ap, run):
                         continue
                     combos = [(VARIANTS[counter % 4], ctors[(counter // 4) % len(ctors)])]
                     changes = tag in ("valid", "coerce", "cross") and not peq(canon(v), canon(default))
-                    if thorough or (first_change and changes and dm != False):
+                    if thorough or (first_change and changes and (dm == "absent" or (dm is True and fam in FULL_IN_QUICK))):
                         combos = list(itertools.product(VARIANTS, ctors))
                     counter += 1
                     for variant, ctor in combos:
